@@ -1,1 +1,43 @@
-From PM Require Import Model.Step.
+(* C13 — adding and removing marks over a range, node-level mark and attribute edits.
+   Theorems, for every schema and valid document:
+   (1) an AddMarkStep / RemoveMarkStep that applies changes NOTHING but marks of tokens inside its range:
+       the document keeps its size, every token before `from` and after `to` is identical (marks included),
+       and the whole token sequence with marks erased ([shs]: kinds, node types, attributes, characters,
+       nesting) is unchanged — "the text and structure of the document, and all marks outside the range,
+       are unchanged";
+   (2) an AttrStep / AddNodeMarkStep / RemoveNodeMarkStep that applies replaces exactly ONE token — the one
+       that opens (or is) the node Node.node_at finds at the position — by a token of the same node type
+       whose attributes / marks are the updated ones (type_create of the documented update), and changes no
+       other token: "node-level mark and attribute edits change only the addressed node".
+   Which marks the tokens inside the range of a mark step end up with (the pointwise rule with exclusions and
+   parent permissions), whole add_mark / remove_mark operations (which plan several steps) and
+   set_block_type / set_node_markup are evaluated per case by Corr.C13 in Coq on the implementation's output. *)
+From Coq Require Import List Arith.
+From PM Require Import Model.Data Model.Mark Model.Tree Model.Resolve Model.Step Spec.Tokens
+  Proofs.ReplaceValid Proofs.TokenBasics Proofs.ReplaceTokens Proofs.SliceShape Proofs.TokenLaws
+  Proofs.NodeSteps Proofs.MarkSteps.
+Import ListNotations.
+Local Open Scope nat_scope.
+
+Theorem C13_mark_step_changes_only_marks_in_range : forall s st from to doc d',
+  check s doc = true -> from <= to ->
+  mark_step_range st = Some (from, to) ->          (* st is AddMarkStep(from,to,_) or RemoveMarkStep(from,to,_) *)
+  apply s st doc = ROk d' ->
+  length (DT s d') = length (DT s doc) /\
+  firstn from (DT s d') = firstn from (DT s doc) /\
+  skipn to (DT s d') = skipn to (DT s doc) /\
+  shs (DT s d') = shs (DT s doc).
+Proof. exact mark_step_tokens. Qed.
+Print Assumptions C13_mark_step_changes_only_marks_in_range.
+
+Theorem C13_node_step_changes_only_the_node : forall s st pos doc d',
+  check s doc = true ->
+  is_node_step st = Some pos ->                   (* st is AttrStep / AddNodeMarkStep / RemoveNodeMarkStep at pos *)
+  apply s st doc = ROk d' ->
+  exists ty a m cs a' m',
+    node_at s (S (node_size s doc)) doc pos = Ok (Some (Elem ty a m cs)) /\
+    node_update s st (Elem ty a m cs) = Ok (Elem ty a' m' []) /\
+    nth_error (DT s doc) pos = Some (tnorm (head_tok s ty a m)) /\
+    DT s d' = firstn pos (DT s doc) ++ [tnorm (head_tok s ty a' m')] ++ skipn (S pos) (DT s doc).
+Proof. exact node_step_splice. Qed.
+Print Assumptions C13_node_step_changes_only_the_node.
